@@ -192,3 +192,55 @@ Proof. exists [10; 11; 12], 2. split; [lia|]. vm_compute. reflexivity. Qed.
 Example data_iterator_orig_wrong_rows :
   di_outer false [10;11;12;13;14;15] 2 [(0,2);(2,4)] = Ok [10;11;14;15].
 Proof. vm_compute. reflexivity. Qed.
+
+(* in fact the code as found fails on EVERY column longer than one chunk: the second chunk overruns its
+   window unless there are three full chunks, and then the third one does *)
+Lemma di_inner_orig_oob (w:list Z) start : forall n v, 0 <= v -> (0 < n)%nat -> len w < v + Z.of_nat n ->
+  di_inner n false w start v = OOB 170.
+Proof.
+  induction n as [|n IH]; intros v Hv Hn Hl; [lia|]. cbn [di_inner].
+  destruct (Z_lt_le_dec v (len w)) as [Hin|Hout].
+  - rewrite (get_ok 170 0) by lia. cbn [bind]. rewrite IH by lia. reflexivity.
+  - rewrite get_oob by lia. reflexivity.
+Qed.
+
+Lemma di_inner_orig_ok (w:list Z) start : forall n v, 0 <= v -> v + Z.of_nat n <= len w ->
+  exists ys, di_inner n false w start v = Ok ys.
+Proof.
+  induction n as [|n IH]; intros v Hv Hl; cbn [di_inner]; [eexists; reflexivity|].
+  rewrite (get_ok 170 0) by lia. cbn [bind]. destruct (IH (v + 1)) as (ys & E); try lia.
+  rewrite E. cbn [bind]. eexists; reflexivity.
+Qed.
+
+Theorem data_iterator_orig_fails_beyond_one_chunk D cs fuel :
+  1 <= cs -> cs < len D -> (chunks_fuel (len D) <= fuel)%nat ->
+  data_iterator false fuel D cs = OOB 170.
+Proof.
+  intros Hc Hl Hf. unfold data_iterator. rewrite chunks_correct by assumption. cbn [bind].
+  unfold chunks_spec. fold (nchunks (len D) cs).
+  pose proof (nchunks_ge (len D) cs Hc) as Hge.
+  set (n := len D) in *.
+  assert (HN2 : (2 <= nchunks n cs)%nat) by nia.
+  replace (nchunks n cs) with (S (S (nchunks n cs - 2))) by lia.
+  cbn [seq map di_outer fst snd].
+  replace (Z.of_nat 0 * cs) with 0 by lia. replace ((Z.of_nat 0 + 1) * cs) with cs by lia.
+  replace (Z.of_nat 1 * cs) with cs by lia. replace ((Z.of_nat 1 + 1) * cs) with (2 * cs) by lia.
+  (* first chunk: start = 0, fine *)
+  destruct (di_inner_orig_ok (slice D 0 (0 + cs * 2)) 0 (Z.to_nat (Z.min n cs - 0)) 0 ltac:(lia)) as (ys0 & E0).
+  { rewrite len_slice_clamp by lia. fold n. lia. }
+  rewrite E0. cbn [bind].
+  destruct (Z_lt_le_dec n (3 * cs)) as [Hlt|Hge3].
+  - (* the second chunk overruns its window *)
+    rewrite di_inner_orig_oob; [reflexivity|lia|lia|].
+    rewrite len_slice_clamp by lia. fold n. lia.
+  - (* three full chunks: the second one reads the wrong rows, the third one overruns *)
+    destruct (di_inner_orig_ok (slice D cs (cs + cs * 2)) cs (Z.to_nat (Z.min n (2 * cs) - cs)) cs ltac:(lia)) as (ys1 & E1).
+    { rewrite len_slice_clamp by lia. fold n. lia. }
+    rewrite E1. cbn [bind].
+    assert (HN3 : (3 <= nchunks n cs)%nat) by nia.
+    replace (nchunks n cs - 2)%nat with (S (nchunks n cs - 3)) by lia.
+    cbn [seq map di_outer fst snd].
+    replace (Z.of_nat 2 * cs) with (2 * cs) by lia. replace ((Z.of_nat 2 + 1) * cs) with (3 * cs) by lia.
+    rewrite di_inner_orig_oob; [reflexivity|lia|lia|].
+    rewrite len_slice_clamp by lia. fold n. lia.
+Qed.
